@@ -92,6 +92,7 @@ def appendAll (cfg : WalFrame.Cfg) (h : Handle) : List Rec → Handle × Option 
 
 /-- one operation on one side; returns the new side and the output line -/
 def run (cfg : WalFrame.Cfg) (ideal : Bool) (sd : Side) (ws : List String) : Side × String :=
+  if (ws == ["wopen"] || ws == ["eopen"]) && (sd.handle.isSome || sd.eng.isSome) then (sd, "bad-op") else
   match ws with
   | ["wopen"] =>
     let h := walOpen sd.file
